@@ -191,6 +191,7 @@ func runC09(r *Run, rng *Rng, thorough bool) {
 			r.FailSig("roundtrip-bytes", fmt.Sprintf("re-encoding differs: %x vs %x (err %v)", b, b2, err), sig)
 		}
 	})
+	extRoundTrips(r, rng, n/6)
 	// decodable-but-invalid (and valid) tokens of the C04 generator: never lies
 	nTok := 0
 	genTokens(rng, false, func(tc tokCase) {
@@ -233,6 +234,127 @@ func runC09(r *Run, rng *Rng, thorough bool) {
 		g1, g2 := gettersOnly(observe(c)), gettersOnly(observe(c2))
 		if g1 != g2 {
 			r.FailSig("never-lies", fmt.Sprintf("decoded-but-invalid claims-set re-encodes to bytes that decode to different getter results:\n before: %s\n after:  %s", g1, g2), sig)
+		}
+	})
+}
+
+// extRoundTrips: a registered extension profile (base claims embedded + one optional integer
+// claim, serialised through the embedding-aware codec) under the same two clauses.
+func extRoundTrips(r *Run, rng *Rng, n int) {
+	psa.VerifWithScratchRegistry(func() {
+		exts := []ExtProfile{{Name: extName(1), Base: 1}, {Name: extName(2), Base: 2}}
+		for _, e := range exts {
+			if err := psa.RegisterProfile(e); err != nil {
+				panic(err)
+			}
+		}
+		for i := 0; i < n; i++ {
+			e := exts[i%2]
+			d := baseValid(rng, e.Base)
+			d.Canon = e.Name
+			d.Prof = sp(e.Name)
+			normalise(&d)
+			if hasBadUTF8(&d) {
+				continue
+			}
+			if e.Base == 1 && d.NoSw != nil {
+				// the profile-1 normalisation of an empty component list lives in P1Claims.MarshalCBOR,
+				// which an embedding extension type does not go through: not a library property
+				continue
+			}
+			c := e.GetClaims()
+			for _, o := range historyOf(&d) {
+				if err := o.Apply(c); err != nil {
+					panic(fmt.Sprintf("ext setter %s: %v", o, err))
+				}
+			}
+			var extra *int64
+			switch i % 5 {
+			case 1:
+				extra = new(int64)
+			case 2:
+				v := int64(rng.U64())
+				extra = &v
+			case 3:
+				v := int64(-1)
+				extra = &v
+			}
+			invalid := false
+			switch x := c.(type) {
+			case *ExtP1Claims:
+				x.Extra = extra
+				if i%7 == 6 {
+					x.VSI = sp("") // decodable but invalid
+					invalid = true
+				}
+			case *ExtP2Claims:
+				x.Extra = extra
+				if i%7 == 6 {
+					x.CertificationReference = sp("")
+					invalid = true
+				}
+			}
+			getExtra := func(ic psa.IClaims) string {
+				var p *int64
+				switch x := ic.(type) {
+				case *ExtP1Claims:
+					p = x.Extra
+				case *ExtP2Claims:
+					p = x.Extra
+				default:
+					return fmt.Sprintf("type %T", ic)
+				}
+				if p == nil {
+					return "extra=_"
+				}
+				return fmt.Sprintf("extra=%d", *p)
+			}
+			class := fmt.Sprintf("extension/base%d", e.Base)
+			r.ImplOnly(class, false, fmt.Sprintf("ext base=%d %s invalid=%v %s", e.Base, getExtra(c), invalid, d.Line()))
+			var b []byte
+			var err error
+			if p, _ := safely(func() { b, err = psa.EncodeClaimsToCBOR(c) }); p {
+				r.Fail("ext-no-panic", "encoding an extension claims-set panicked")
+				continue
+			}
+			if err != nil {
+				if !invalid {
+					r.Fail("encode-valid", fmt.Sprintf("valid extension claims-set does not encode: %v", err))
+				}
+				continue
+			}
+			var c2 psa.IClaims
+			decode := func(buf []byte) (psa.IClaims, error) {
+				if e.Base == 2 {
+					return psa.DecodeClaimsFromCBOR(buf) // dispatched on key 265
+				}
+				// CBOR dispatch knows profile 1 only by the absence of key 265 (iclaims.go), so an
+				// extension built on profile 1 is decoded through its own claims type
+				x := e.GetClaims()
+				return x, x.(*ExtP1Claims).UnmarshalCBOR(buf)
+			}
+			if p, _ := safely(func() { c2, err = decode(append([]byte{}, b...)) }); p {
+				r.Fail("ext-no-panic", "decoding an extension token panicked")
+				continue
+			}
+			if err != nil {
+				if !invalid {
+					r.Fail("decode-own-encoding", fmt.Sprintf("extension profile: own encoding rejected: %v (%x)", err, b))
+				}
+				continue
+			}
+			g1 := gettersOnly(observe(c)) + " " + getExtra(c)
+			g2 := gettersOnly(observe(c2)) + " " + getExtra(c2)
+			if g1 != g2 {
+				clause := "roundtrip-getters"
+				if invalid {
+					clause = "never-lies"
+				}
+				r.Fail(clause, fmt.Sprintf("extension profile: getter results differ after decode(encode):\n before: %s\n after:  %s", g1, g2))
+			}
+			if b2, err := psa.EncodeClaimsToCBOR(c2); err != nil || !bytes.Equal(b, b2) {
+				r.Fail("roundtrip-bytes", fmt.Sprintf("extension profile: re-encoding differs: %x vs %x (%v)", b, b2, err))
+			}
 		}
 	})
 }
